@@ -1,49 +1,71 @@
 #!/usr/bin/env python3
-"""Run the quick checks against every seeded change and record the outcome.
+"""Run the quick checks against seeded changes and record the outcome - on private copies, in parallel.
 
-usage: seed_matrix.py [--all-checks] [<seed-id>...]
-For each /verif/seeded/<id>/: apply patch.diff to /repo, run the check of the seed's own property (plus the extra checks
-listed below / every check with --all-checks), revert /repo, and write `detected_by` (check id -> 'input' | 'no-input' |
-'miss' | 'broken') into meta.json.  NEVER run while another check or sweep is running (it edits /repo's working tree)."""
+usage: seed_matrix.py [--all-checks] [--jobs N] [<seed-id>...]
+Each worker gets its own copy of /verif (built Coq files included) and its own export of /repo HEAD under
+/tmp/seedmx/<k>/, applies seeded/<id>/patch.diff to the export, runs the check of the seed's own property (plus the
+extra checks listed below / every check with --all-checks) with WCMATCH_REPO pointing at the export, and reverts.
+Results: `detected_by` (check id -> 'input' | 'no-input' | 'miss' | 'broken') in /verif/seeded/<id>/meta.json.
+/repo and /verif/coq are never touched, so other work can go on while this runs.  The copies are removed at the end."""
 import json
 import os
-import re
+import shutil
 import subprocess
 import sys
+from concurrent.futures import ThreadPoolExecutor
 
 ROOT = '/verif'
+BASE = '/tmp/seedmx'
 ALL = ['C%02d' % i for i in range(1, 21)]
 EXTRA = {'C03-m2': ['C05', 'C06'], 'C04-m2': ['C07'], 'C06-m1': ['C05'], 'C06-m2': ['C04'], 'C02-m1': ['C01'], 'C05-m1': ['C12'],
-         'C13-m1': ['C07'], 'C16-m2': ['C12'], 'C18-m1': ['C01'], 'C12-m2': ['C05']}
+         'C13-m1': ['C07'], 'C16-m2': ['C12'], 'C18-m1': ['C01'], 'C12-m2': ['C05'],
+         'C03-m4': ['C14'], 'C04-m3': ['C03', 'C02'], 'C05-m3': ['C06'], 'C06-m3': ['C05'], 'C06-m4': ['C04'], 'C07-m3': ['C08', 'C09'],
+         'C08-m4': ['C07'], 'C09-m4': ['C01', 'C07'], 'C08-m3': ['C20'], 'C18-m4': ['C20'], 'C20-m4': ['C18'], 'C10-m3': ['C20'],
+         'C14-m3': ['C07'], 'C16-m3': ['C02'], 'C17-m4': ['C01'], 'C13-m4': ['C07'], 'C12-m4': ['C04']}
 
 
 def sh(*a, **k):
     return subprocess.run(a, stdout=subprocess.PIPE, stderr=subprocess.STDOUT, text=True, **k)
 
 
-def run_check(cid):
-    env = dict(os.environ, VERIF_SEED=os.environ.get('VERIF_SEED', '1'))
-    r = sh('/venv/bin/python', os.path.join(ROOT, 'tools/check.py'), cid, '--tier', 'quick', env=env, cwd=ROOT)
-    vio = [l for l in r.stdout.splitlines() if l.startswith('VIOLATION')]
-    if r.returncode == 0 and not vio:
+def setup(k):
+    d = os.path.join(BASE, str(k))
+    shutil.rmtree(d, ignore_errors=True)
+    os.makedirs(d)
+    v, r = os.path.join(d, 'verif'), os.path.join(d, 'repo')
+    sh('rsync', '-a', '--exclude=.git', '--exclude=replay', '--exclude=seeded', ROOT + '/', v + '/')
+    os.makedirs(os.path.join(v, 'replay'), exist_ok=True)
+    os.makedirs(r)
+    p = subprocess.Popen(['git', '-C', '/repo', 'archive', 'HEAD'], stdout=subprocess.PIPE)
+    subprocess.run(['tar', '-x', '-C', r], stdin=p.stdout)
+    p.wait()
+    sh('git', 'init', '-q', cwd=r)
+    sh('git', 'add', '-A', cwd=r)
+    sh('git', '-c', 'user.email=x@x', '-c', 'user.name=x', 'commit', '-qm', 'base', cwd=r)
+    return v, r
+
+
+def run_check(v, r, cid):
+    env = dict(os.environ, VERIF_SEED=os.environ.get('VERIF_SEED', '1'), WCMATCH_REPO=r)
+    p = sh('/venv/bin/python', os.path.join(v, 'tools/check.py'), cid, '--tier', 'quick', env=env, cwd=v)
+    vio = [l for l in p.stdout.splitlines() if l.startswith('VIOLATION')]
+    if p.returncode == 0 and not vio:
         return 'miss', ''
     if not vio:
-        return 'broken', r.stdout[-400:]
+        return 'broken', p.stdout[-400:]
     with_input = [l for l in vio if not l.rstrip().endswith('no-failing-input-found')]
     return ('input' if with_input else 'no-input'), (with_input or vio)[0]
 
 
-def main():
-    args = [a for a in sys.argv[1:] if not a.startswith('--')]
-    allc = '--all-checks' in sys.argv
-    seeds = args or sorted(os.listdir(os.path.join(ROOT, 'seeded')))
-    assert sh('git', '-C', '/repo', 'status', '--short').stdout.strip() == '', '/repo working tree is not clean'
+def worker(k, seeds, allc):
+    v, r = setup(k)
+    out = []
     for sid in seeds:
         d = os.path.join(ROOT, 'seeded', sid)
         meta = json.load(open(os.path.join(d, 'meta.json')))
-        a = sh('git', '-C', '/repo', 'apply', os.path.join(d, 'patch.diff'))
+        a = sh('git', '-C', r, 'apply', os.path.join(d, 'patch.diff'))
         if a.returncode != 0:
-            print(sid, 'PATCH DOES NOT APPLY', a.stdout[-200:])
+            print(sid, 'PATCH DOES NOT APPLY', a.stdout[-200:], flush=True)
             meta['detected_by'] = {'_error': 'patch no longer applies to /repo HEAD'}
             json.dump(meta, open(os.path.join(d, 'meta.json'), 'w'), indent=1)
             continue
@@ -52,15 +74,38 @@ def main():
             res = dict(meta.get('detected_by', {})) if allc else {}
             res.pop('_error', None)
             for c in checks:
-                v, line = run_check(c)
-                res[c] = v
-                print(sid, c, v, line[:160], flush=True)
+                verdict, line = run_check(v, r, c)
+                res[c] = verdict
+                print(sid, c, verdict, line[:150].replace(v, '<copy>'), flush=True)
         finally:
-            sh('git', '-C', '/repo', 'checkout', '--', '.')
+            sh('git', '-C', r, 'checkout', '--', '.')
         meta['detected_by'] = res
         meta['detected_at_repo_head'] = sh('git', '-C', '/repo', 'rev-parse', '--short', 'HEAD').stdout.strip()
         json.dump(meta, open(os.path.join(d, 'meta.json'), 'w'), indent=1)
-    print(sh('git', '-C', '/repo', 'status', '--short').stdout)
+    # after the last revert the copy must be clean again: one control run
+    verdict, line = run_check(v, r, 'C11')
+    if verdict != 'miss':
+        print('CONTROL FAILED in worker', k, verdict, line, flush=True)
+    shutil.rmtree(os.path.join(BASE, str(k)), ignore_errors=True)
+    return out
+
+
+def main():
+    args = [a for a in sys.argv[1:] if not a.startswith('--')]
+    allc = '--all-checks' in sys.argv
+    jobs = 4
+    if '--jobs' in sys.argv:
+        jobs = int(sys.argv[sys.argv.index('--jobs') + 1])
+        args = [a for a in args if a != str(jobs)]
+    seeds = args or sorted(os.listdir(os.path.join(ROOT, 'seeded')))
+    jobs = max(1, min(jobs, len(seeds)))
+    chunks = [seeds[i::jobs] for i in range(jobs)]
+    with ThreadPoolExecutor(jobs) as ex:
+        list(ex.map(lambda kc: worker(kc[0], kc[1], allc), enumerate(chunks)))
+    try:
+        os.rmdir(BASE)
+    except OSError:
+        pass
 
 
 if __name__ == '__main__':
